@@ -185,7 +185,7 @@ impl Property for C29 {
 
     fn runs(&self, tier: Tier) -> u64 {
         match tier {
-            Tier::Quick => 16 * 200,
+            Tier::Quick => 16 * 1000,
             Tier::Thorough => 16 * 20_000,
         }
     }
